@@ -419,6 +419,26 @@ def run(ctx):
                      % (d.get("offsets"), (d.get("stored") or {}).get("n"), d.get("decode_err") or "content differs"))
     finally:
         pool.close()
+    # ---- the same register property at store level: long seeded runs of real statements (splits at production and small
+    # capacities, NULLs, updates changing row lengths, empty tables); after every flush each page the store holds
+    # (cached version over the file) must be what the data file alone decodes to, header included
+    import storelib
+    sbin = vlib.build_harness(ctx, "store")
+    spool = vlib.WorkerPool(ctx, sbin)
+    try:
+        scov = storelib.new_cov()
+        nruns = 4 if ctx.quick() else 12
+        agg = storelib.random_runs(ctx, spool, scov, [dict(seed=ctx.seed * 1000 + 700 + i, n=(150 if ctx.quick() else 400), caps=([3, 3] if i % 2 else []),
+                                                            cache=(0 if i % 4 < 2 else 12), pcrash=0, pflush=0.5, wal=False, maxrows=(4 if i % 2 else 12),
+                                                            pagert=True) for i in range(nruns)])
+        cov["store_level_runs"] = dict(runs=agg["runs"], statements=agg["statements"], flushes=agg["flushes"],
+                                       order_events=agg.get("order_events_accepted_by_walorder", 0), pages_round_tripped=agg.get("pages_round_tripped", 0))
+        if not agg.get("pages_round_tripped") and not ctx.violations:
+            raise vlib.Undecided("vacuous: no page was compared after a flush")
+        if agg["runs"] == 0 and not ctx.violations:
+            raise vlib.Undecided("vacuous: no store-level round-trip run was judged")
+    finally:
+        spool.close()
     if cov["drift"]:
         ctx.note("%d replayed scenarios: cache hit/miss differed from the specification (observable results identical)" % cov["drift"])
     cov["exhaustive"] = True
